@@ -495,16 +495,24 @@ pub fn finish_sinks(handles: Vec<(Var, SinkKind, SinkHandle)>) -> Vec<SinkResult
             SinkHandle::Channel(rx) => {
                 let mut v = Vec::new();
                 let closed;
+                // the sink's thread reports its end slightly before its channel end is dropped:
+                // allow a generous time for the disconnection before calling it "still connected"
+                let mut silent_since = std::time::Instant::now();
                 loop {
                     match rx.recv_timeout(std::time::Duration::from_millis(200)) {
-                        Ok(r) => v.push(r),
+                        Ok(r) => {
+                            v.push(r);
+                            silent_since = std::time::Instant::now();
+                        }
                         Err(flume::RecvTimeoutError::Disconnected) => {
                             closed = true;
                             break;
                         }
                         Err(flume::RecvTimeoutError::Timeout) => {
-                            closed = false;
-                            break;
+                            if silent_since.elapsed() > std::time::Duration::from_secs(10) {
+                                closed = false;
+                                break;
+                            }
                         }
                     }
                 }
